@@ -52,6 +52,6 @@ YIELD="${VERIF_YIELD:-}"
 if grep -n "reflect\.Select\|sync\.Map\|sync\.Cond" "$S"/kc/*.go "$S"/kc/join/*.go "$S"/kc/types/*/*.go 2>/dev/null | grep -v _test.go | grep -v "^$S/kc/types/gen"; then
   fail "unsupported primitive in instrumented code"
 fi
-"$KCINSTR" -dir "$S/sim" -tags verif -mapfn MapKeysSorted ./world/... ./scen/... || exit 2
-( cd "$S/sim" && go build -tags verif -trimpath -o "$S/worker" ./cmd/worker ) || fail "go build of the instrumented tree failed"
+"$KCINSTR" -dir "$S/sim" -tags verif,kcinstr -mapfn MapKeysSorted ./world/... ./scen/... || exit 2
+( cd "$S/sim" && go build -tags verif,kcinstr -trimpath -o "$S/worker" ./cmd/worker ) || fail "go build of the instrumented tree failed"
 echo "build_sim: ok $S/worker"
